@@ -617,8 +617,11 @@ func TestLateJoinFLV(t *testing.T) {
 			inbandParameterSets(pl, audioFirst)
 		}
 		config.VerifSet(":0", false, pl.CacheGop, "", 5)
+		conv := mediah.WatchConverters()
+		defer conv.Stop()
 		s := media.NewStream("/c02/flv", mediah.SDPWith(pl.cdc, pl.Audio, !noSprop))
 		defer s.Close()
+		conv.Bind(s)
 		tr := mediah.NewTracker(s)
 		in := sched.New(15 * time.Millisecond)
 		in.Tracing = func(p string) bool { return p == "flvpublish.cached" || p == "join.snapshotted" }
@@ -661,22 +664,33 @@ func TestLateJoinFLV(t *testing.T) {
 		joinAtTag := rapid.IntRange(1, len(pl.pubs)+3).Draw(t, "joinAtTag")
 		// let the converter goroutines settle so that the join lands at a generated,
 		// reproducible place in the tag stream (the oracle uses the traced position anyway)
+		var jmuLock, jmuUnlock func()
+		var cursorNow func() int
 		settle := func() {
-			last, stable := -1, 0
-			mediah.WaitFor(2*time.Second, func() bool {
-				n := first.Len()
-				if n == last {
-					stable++
-				} else {
-					stable, last = 0, n
+			// state-based: the converter goroutines have worked off everything published so
+			// far (demuxer back at its queue once per packet, muxer once per frame), then the
+			// from-the-start consumer has been handed every tag that was cached
+			jmuLock()
+			n := cursorNow()
+			jmuUnlock()
+			if !conv.WaitDone(n, bound) {
+				evid.Violation(t, "flv-converter-stuck", pl, "the RTP demuxer / FLV muxer did not work off %d published packets within %v: %s", n, bound, conv.Describe())
+			}
+			mediah.WaitFor(bound, func() bool {
+				c := 0
+				for _, ev := range in.Trace() {
+					if ev.Point == "flvpublish.cached" {
+						c++
+					}
 				}
-				return stable >= 15
+				return first.Len() >= c
 			})
 		}
 		var jmu sync.Mutex
 		var j *mediah.Rec
 		var jcid media.CID
 		cursor := 0
+		jmuLock, jmuUnlock, cursorNow = jmu.Lock, jmu.Unlock, func() int { return cursor }
 		publishNext := func(n int) {
 			for ; n > 0; n-- {
 				jmu.Lock()
